@@ -16,19 +16,20 @@ import (
 // Job is one symbolic execution of a harness function with concrete
 // parameters; everything obtained through vp.I32 etc. is symbolic.
 type Job struct {
-	Prop     string
-	Pkg      string // package directory relative to the module root
-	Fn       string
-	Key      string // identifies the job inside finding keys
-	Params   map[string]string
-	Policy   int
-	MaxPaths int
-	MaxSteps int64
-	MaxConc  int      // bound on the values a symbolic index is concretised to (0: 4)
-	Choices  []int    // forced values of the first vp.Choice calls (splits one history space over several jobs)
-	RawTerms bool     // no canonicalising rewrites: every obligation goes to the solver as written
-	Covers   []string // cover points that must be reached by some path (vacuity guard)
-	Note     string
+	Prop       string
+	Pkg        string // package directory relative to the module root
+	Fn         string
+	Key        string // identifies the job inside finding keys
+	Params     map[string]string
+	Policy     int
+	MaxPaths   int
+	MaxSteps   int64
+	MaxQueries int      // solver query budget of the job (0: none); exceeding it ends the job as incomplete
+	MaxConc    int      // bound on the values a symbolic index is concretised to (0: 4)
+	Choices    []int    // forced values of the first vp.Choice calls (splits one history space over several jobs)
+	RawTerms   bool     // no canonicalising rewrites: every obligation goes to the solver as written
+	Covers     []string // cover points that must be reached by some path (vacuity guard)
+	Note       string
 }
 
 type Finding struct {
@@ -153,6 +154,11 @@ func (p *Pool) runJob(j *Job, solverp **sym.Solver) (r *JobResult) {
 	seenI := map[string]bool{}
 	vars := map[string]bool{}
 	for len(work) > 0 {
+		if j.MaxQueries > 0 && solver.Queries-q0 > j.MaxQueries {
+			r.Incomplete = true
+			r.Inconcl = append(r.Inconcl, fmt.Sprintf("query budget %d exhausted with %d prefixes pending", j.MaxQueries, len(work)))
+			break
+		}
 		if r.Paths >= maxPaths {
 			r.Incomplete = true
 			r.Inconcl = append(r.Inconcl, fmt.Sprintf("path budget %d exhausted with %d prefixes pending", maxPaths, len(work)))
